@@ -98,6 +98,15 @@ def run(chk):
     chk.assume_note('A-FRESH (call sites): insert_coin on an id that already exists keeps its covenant hash '
                     '(holds for Melswap rewrites, checked in C15; fresh ids for new outputs follow from hash injectivity)')
     chk.assume_note('counts < 2^63 so +1 cannot overflow (2^63 coins do not fit any state)')
+    coin_kernels(chk, it)
+    call_sites(chk, it)
+    tv(chk)
+
+
+def coin_kernels(chk, it):
+    """insert_coin / remove_coin from an arbitrary tree: count deltas, contract equality (which fixes exactly which leaves
+    exist afterwards: the coin leaf, and the count leaf iff the count is non-zero), frames"""
+    install_invariant(it)
     ins = it.by_last['insert_coin'][0]
     rem = it.by_last['remove_coin'][0]
     a = z3.BitVec('any_covhash', 256)
@@ -187,8 +196,6 @@ def run(chk):
     cp, n = count_of(it, st, t0, covhash_of(c0))
     chk.cover('existing coin with count 1 reachable', st.pc + [p0, n == 1])
     chk.cover('existing coin with count 7 reachable', st.pc + [p0, n == 7])
-    call_sites(chk, it)
-    tv(chk)
 
 
 def call_sites(chk, it):
